@@ -130,14 +130,19 @@ def run(chk):
         fn = os.path.join(chk.scratch, f'p9_{nf}.asdf')
         asdf.AsdfFile({'header': {'BoxSize': BOX, 'VelZSpace_to_kms': VELZ}, 'data': {'pack9': data}}).write_to(fn)
         for dt in (np.float32, np.float64):
-            t = read_asdf(fn, dtype=dt, verbose=False)
             epos, evel, cpd = expected(c['out'], dt)
-            nf += 1
-            if len(t) != len(c['out']) or set(t.colnames) != {'pos', 'vel'}:
-                chk.violation('read_asdf-pack9-shape', f'read_asdf on pack9 stream: {len(t)} rows / columns {t.colnames}; expected {len(c["out"])} rows pos, vel', dict(stream=c['stream']))
-                continue
-            if len(t) and not (np.allclose(t['pos'], epos, rtol=0, atol=2e-3) and np.allclose(t['vel'], evel, rtol=1e-5, atol=1e-9)):
-                chk.violation('read_asdf-pack9-values', 'read_asdf on pack9 stream: values differ from the direct decode', dict(stream=c['stream']))
+            # every column selection: the row count is the number of particle records whichever columns are asked for
+            for load in (None, ('pos', 'vel'), ('pos',), ('vel',)):
+                t = read_asdf(fn, dtype=dt, verbose=False, **({} if load is None else dict(load=load)))
+                nf += 1
+                cols = {'pos', 'vel'} if load is None else set(load)
+                if len(t) != len(c['out']) or set(t.colnames) != cols:
+                    chk.violation('read_asdf-pack9-shape', f'read_asdf(load={load}) on pack9 stream: {len(t)} rows / columns {t.colnames}; expected {len(c["out"])} rows of {sorted(cols)}', dict(stream=c['stream']))
+                    continue
+                if len(t) and 'pos' in cols and not np.allclose(t['pos'], epos, rtol=0, atol=2e-3):
+                    chk.violation('read_asdf-pack9-values', f'read_asdf(load={load}) on pack9 stream: positions differ from the direct decode', dict(stream=c['stream']))
+                if len(t) and 'vel' in cols and not np.allclose(t['vel'], evel, rtol=1e-5, atol=1e-9):
+                    chk.violation('read_asdf-pack9-values', f'read_asdf(load={load}) on pack9 stream: velocities differ from the direct decode', dict(stream=c['stream']))
     chk.part('read_asdf_pack9', loads=nf)
     chk.add_cases(ns + nst + nf, nontrivial=ns + nst - 1 + nf, traces=ns + nst + nf)
 
